@@ -45,6 +45,8 @@ func c02Alphabet() (lines []c02Line, hA, hB string) {
 		net(false, p, true, "dnstype=AAAA"),
 		net(false, p, true, "denyallow=sub.example.org"),
 		net(false, p, true, "dnstype=AAAA", "badfilter"),
+		net(false, p, true, "dnstype=~AAAA"),
+		net(false, p, true, "dnstype=~A", "badfilter"),
 		{text: "0.0.0.0 example.org"},
 		{text: ":: example.org"},
 		{text: "::ffff:1.2.3.4 example.org"},
@@ -64,7 +66,7 @@ type c02Req struct {
 
 func c02Requests(hA, hB string) (qs []c02Req) {
 	for _, h := range []string{"example.org", "sub.example.org", hA, hB, "EXAMPLE.ORG", ""} {
-		for _, t := range []uint16{1, 28} {
+		for _, t := range []uint16{1, 28, 16} {
 			for ci, cl := range []struct{ name, ip string }{{"", ""}, {"laptop", ""}, {"", "10.0.0.1"}} {
 				for ti, tags := range [][]string{nil, {"pc"}} {
 					r := urlfilter.DNSRequest{Hostname: h, DNSType: t, ClientName: cl.name, SortedClientTags: tags}
